@@ -1,10 +1,7 @@
 (* Sched: the inductive invariant of the step scheduler model and its safety corollaries
    (C15_bound, C01_start_after_deps, C03_attempt_bounds).  DESIGN.md Appendix A.2, conjuncts I1-I4.
 
-   Standing hypotheses of the section (explicit premises of every exported theorem):
-     Hdone  : donech c = true         Schedule is called with a done channel (agent.go:190,368 always does);
-                                      with done == nil the model contains the stale-worker flip, which refutes
-                                      C01/C15 (stale_flip_refuted below)
+   Standing hypothesis of the section (explicit premise of every exported theorem):
      Hnorep : no step has a repeatPolicy (the properties C01 C02 C03 C15 quantify over retryPolicy, continueOn,
                                       preconditions, maxActiveRuns; repeating steps belong to C05) *)
 From Coq Require Import List Arith Bool Lia PeanoNat.
@@ -159,23 +156,28 @@ End Inv.
 (* ---------------------------------------------------------------------------------------------- *)
 Section Pres.
 Variable c : cfg.
-Hypothesis Hdone : donech c = true.
 Hypothesis Hnorep : norepeat c.
 Notation n := (nsteps c).
 Notation step := (step c).
 Notation Inv := (Inv c).
 Notation okterm := (okterm c).
 
-(* the outcome of the error switch, case by case (repeat excluded, done channel present) *)
+(* where the worker goes after a failed command: with a done channel it reports and returns (scheduler.go:206-208),
+   without one it falls through to the final status check *)
+Definition fphase : wphase := if donech c then PGone else PPost.
+Lemma fphase_cases : fphase = PGone \/ fphase = PPost.
+Proof. unfold fphase. destruct (donech c); auto. Qed.
+
+(* the outcome of the error switch, case by case (repeat excluded) *)
 Inductive after_case (s : state) (i : nat) : bool -> bool -> state -> Prop :=
 | AC_ok early : after_case s i true early (set_nd s i (with_ph (count_done (nd s i)) PPost))
 | AC_seen early : (early = false /\ (st (nd s i) = NSuccess \/ st (nd s i) = NCancel)) ->
-    after_case s i false early (set_nd s i (with_ph (count_done (nd s i)) PGone))
+    after_case s i false early (set_nd s i (with_ph (count_done (nd s i)) fphase))
 | AC_timeout early : (early = true \/ (st (nd s i) <> NSuccess /\ st (nd s i) <> NCancel)) -> timedout s = true ->
-    after_case s i false early (set_nd (set_err s) i (with_ph (count_done (with_st (nd s i) NCancel)) PGone))
+    after_case s i false early (set_nd (set_err s) i (with_ph (count_done (with_st (nd s i) NCancel)) fphase))
 | AC_cancel early : (early = true \/ (st (nd s i) <> NSuccess /\ st (nd s i) <> NCancel)) -> timedout s = false ->
     canceled s = true ->
-    after_case s i false early (set_nd (set_err s) i (with_ph (count_done (nd s i)) PGone))
+    after_case s i false early (set_nd (set_err s) i (with_ph (count_done (nd s i)) fphase))
 | AC_retry early : (early = true \/ (st (nd s i) <> NSuccess /\ st (nd s i) <> NCancel)) -> timedout s = false ->
     canceled s = false -> rc (nd s i) < rlimit (steps c i) ->
     after_case s i false early
@@ -183,7 +185,7 @@ Inductive after_case (s : state) (i : nat) : bool -> bool -> state -> Prop :=
                      ph := PRetryWait; stale := stale (nd s i); outs := outs (nd s i) |})
 | AC_error early : (early = true \/ (st (nd s i) <> NSuccess /\ st (nd s i) <> NCancel)) -> timedout s = false ->
     canceled s = false -> rlimit (steps c i) <= rc (nd s i) ->
-    after_case s i false early (set_nd (set_err s) i (with_ph (count_done (with_st (nd s i) NError)) PGone)).
+    after_case s i false early (set_nd (set_err s) i (with_ph (count_done (with_st (nd s i) NError)) fphase)).
 
 Lemma match_seen {A} (v : nstatus) (a b : A) :
   (match v with NSuccess | NCancel => a | _ => b end) =
@@ -192,16 +194,16 @@ Proof. destruct v; reflexivity. Qed.
 
 Lemma after_cases s i ok early : after_case s i ok early (after c s i ok early).
 Proof.
-  unfold after, tail. rewrite (Hnorep i), Hdone. cbn [andb].
+  unfold after, tail. rewrite (Hnorep i). cbn [andb]. fold fphase.
   destruct ok; [constructor|].
   assert (Hgen : forall side : early = true \/ (st (nd s i) <> NSuccess /\ st (nd s i) <> NCancel),
     after_case s i false early
-      (if timedout s then set_nd (set_err s) i (with_ph (count_done (with_st (nd s i) NCancel)) PGone)
-       else if canceled s then set_nd (set_err s) i (with_ph (count_done (nd s i)) PGone)
+      (if timedout s then set_nd (set_err s) i (with_ph (count_done (with_st (nd s i) NCancel)) fphase)
+       else if canceled s then set_nd (set_err s) i (with_ph (count_done (nd s i)) fphase)
        else if rc (nd s i) <? rlimit (steps c i)
             then set_nd s i {| st := st (nd s i); rc := S (rc (nd s i)); dc := dc (nd s i); att := att (nd s i);
                                ph := PRetryWait; stale := stale (nd s i); outs := outs (nd s i) |}
-            else set_nd (set_err s) i (with_ph (count_done (with_st (nd s i) NError)) PGone))).
+            else set_nd (set_err s) i (with_ph (count_done (with_st (nd s i) NError)) fphase))).
   { intros side.
     destruct (timedout s) eqn:Ht; [apply AC_timeout; auto|].
     destruct (canceled s) eqn:Hc; [apply AC_cancel; auto|].
@@ -221,7 +223,8 @@ Ltac use_after :=
   try match goal with
   | |- context [after c ?s ?i ?ok ?e] =>
       let H := fresh "HAC" in let sa := fresh "sa" in let E := fresh "Esa" in
-      pose proof (after_cases s i ok e) as H; remember (after c s i ok e) as sa eqn:E; clear E; destruct H
+      pose proof (after_cases s i ok e) as H; remember (after c s i ok e) as sa eqn:E; clear E; destruct H;
+      try (let F := fresh "Hfp" in destruct fphase_cases as [F|F]; rewrite F in * )
   end.
 
 Ltac start_step HI Hs :=
@@ -313,7 +316,6 @@ Proof.
   all: try apply HS.
   all: try (destruct (Nat.eqb_spec j i) as [->|Hne]; [|apply HS]).
   all: nsimpl; try apply HS.
-  all: try (rewrite Hdone; apply HS).
   all: try (rewrite HS in *; discriminate).
   match goal with |- context [j =? ?k] => destruct (Nat.eqb_spec j k) as [->|Hne]; [|apply HS] end.
   nsimpl. apply HS.
@@ -647,10 +649,11 @@ Qed.
 End Pres.
 
 (* ---------------------------------------------------------------------------------------------- *)
-(* why the premise donech = true is there: with done == nil (only the package's own tests call Schedule that *)
-(* way) the worker that reset a retried node to not-started falls through to scheduler.go:213 and, if the loop *)
-(* has relaunched the node in between, flips the *running* second attempt to finished: its dependents start   *)
-(* while it executes, and the capacity count misses it.                                                       *)
+(* History: before fix f9e55a3 a Schedule call with done == nil (the package's own tests) let the worker that had   *)
+(* reset a retried node fall through to scheduler.go:213 and flip the relaunched, running next attempt to finished   *)
+(* (label WStaleFinish of the then model; reproduced on the real code: findings/C01-done-nil-stale-flip.json).  The *)
+(* repaired model has no such transition: in the same scenario the dependent cannot be committed while the second    *)
+(* attempt executes, whether a done channel is given or not.                                                         *)
 (* ---------------------------------------------------------------------------------------------- *)
 Definition flip_cfg : cfg :=
   mkcfg [ {| deps := []; cof := false; cos := false; rlimit := 1; pre := true; sfail := false; repeat := false |};
@@ -658,16 +661,16 @@ Definition flip_cfg : cfg :=
         1 false false.
 Definition flip_exec : list label :=
   [LCommit 0; LLaunch 0; WTest 0; WExecStart 0; WExecEnd 0 false; WAfter 0 false; WRetryWake 0;
-   LCommit 0; LLaunch 0; WStaleFinish 0; WTest 0; WExecStart 0;
-   LCommit 1; LLaunch 1; WTest 1; WExecStart 1].
+   LCommit 0; LLaunch 0; WTest 0; WExecStart 0].
 
-Lemma stale_flip_refuted :
+Lemma stale_flip_repaired :
   exists s, run flip_cfg (init flip_cfg) flip_exec = Some s /\
             norepeat flip_cfg /\ donech flip_cfg = false /\ maxActive flip_cfg = 1 /\
-            In 0 (deps (steps flip_cfg 1)) /\ ph (nd s 0) = PExec /\ ph (nd s 1) = PExec.
+            In 0 (deps (steps flip_cfg 1)) /\ ph (nd s 0) = PExec /\ st (nd s 0) = NRunning /\
+            step flip_cfg s (LCommit 1) = None.
 Proof.
   eexists. split; [vm_compute; reflexivity|].
-  repeat split; try reflexivity.
-  - intros i. unfold flip_cfg, mkcfg. cbn [steps]. destruct i as [|[|i]]; try reflexivity. destruct i; reflexivity.
-  - left. reflexivity.
+  split; [intros i; unfold flip_cfg, mkcfg; cbn [steps]; destruct i as [|[|i]]; try reflexivity; destruct i; reflexivity|].
+  split; [reflexivity|]. split; [reflexivity|]. split; [left; reflexivity|].
+  split; [vm_compute; reflexivity|]. split; vm_compute; reflexivity.
 Qed.
